@@ -4,7 +4,7 @@ Functions under contract: rlbox_sandbox::register_callback run-time part (rlbox_
 is_unregistered (rlbox_policy_types.hpp:65-156).  Backend slot functions are contract stubs here (their bodies for the
 bundled backends are C12).  Registry view: callback_keys as an M-vec sequence."""
 from vlib.unit import Unit, Inst, find_func
-from .common import cs, PRE_GHOST
+from .common import cs, PRE_GHOST, dyn_keeps, trait_inst
 from .C03 import SB
 from .C14 import FACTS
 
@@ -68,7 +68,7 @@ def register_inst(tier):
          '  _Bool in_noabort; g_noabort = in_noabort; g_be_regs = 0; unsigned long in_be_result; g_be_reg_result = in_be_result; uintptr_t in_f;\n'
          '  struct %s r = $ROOT(&sb, (void *)in_f);\n' % CB)
     return Inst('c13_register_callback', 'rlbox_sandbox<vsbx>& s, tainted<int, vsbx> (*f)(rlbox_sandbox<vsbx>&, tainted<long, vsbx>)', 's.register_callback(f);', cl, h,
-                leaves=['dynamic_check', BE_REG, INTERCEPTOR], prop=PROP, root_name='register_callback', tier=tier, pre=GH, facts=FACTS,
+                leaves=[dyn_keeps('g_be_regs == 0', 'a_refused_registration_has_not_taken_a_backend_entry_point'), BE_REG, INTERCEPTOR], prop=PROP, root_name='register_callback', tier=tier, pre=GH, facts=FACTS,
                 replay={'kind': 'register_full_table', 'no_inputs': True})
 
 
@@ -172,7 +172,9 @@ def backend_entry_point_inst(tier):
 
 
 def units(tier):
-    return [Unit('C13_callback_ownership', [register_inst(tier), unregister_cb_inst(tier), destroy_keeps_registrations_inst(tier), backend_entry_point_inst(tier)] + owner_insts(tier))]
+    return [Unit('C13_callback_ownership', [register_inst(tier), unregister_cb_inst(tier), destroy_keeps_registrations_inst(tier), backend_entry_point_inst(tier)] + owner_insts(tier) +
+                 [trait_inst('c13_owner_is_not_copyable', PROP, 'std::is_copy_constructible_v<sandbox_callback<int (*)(long), vsbx>> || std::is_copy_assignable_v<sandbox_callback<int (*)(long), vsbx>>', 0,
+                             'a_registration_owner_cannot_be_copied', tier)])]
 
 
 ASSUMPTIONS = [
